@@ -44,7 +44,9 @@ DEFECT_VARIANTS = {
     'missing_home_file': ['run -python -existing-file -rel-home missing.py', 'run -rel-home missing-program',
                           'copy -rel-home missing.txt',
                           'copy /nonexistent-dir-of-verif/missing.txt', 'copy -rel HERE_PATH missing.txt',
-                          'run -python -existing-file -rel-act-home missing.py'],
+                          'run -python -existing-file -rel-act-home missing.py',
+                          # an argument given where a program SYMBOL is referenced
+                          'run @ PGM x -existing-file -rel-home missing.py', 'run @ PGM2 -existing-path missing-path'],
     'bad_integer': ['timeout = 1.5', 'timeout = abc', 'timeout = "1 +"'],
     'bad_regex': ["file r.txt = -contents-of -rel-home exists.txt -transformed-by replace '(' x",
                   "file r.txt = -contents-of -rel-home exists.txt -transformed-by grep '*'",
@@ -74,7 +76,8 @@ def concretize(c, mark):
         pre = []
         if ph == 'setup':
             pre = ['def string DEFINED = v', 'def path HOME_PATH = -rel-home sub', 'def path HERE_PATH = -rel-here sub',
-                   'def string INDIRECT = @[DEFINED]@-@[HOME_PATH]@']
+                   'def string INDIRECT = @[DEFINED]@-@[HOME_PATH]@', 'def program PGM = % true a',
+                   'def program PGM2 = @ PGM b']
             lines.append('file created-%s.txt = x' % ph)
         if ph == c['dphase']:
             vs = DEFECT_VARIANTS.get(c['defect'])
